@@ -390,7 +390,7 @@ PROPS = {
         "assumptions": [],
     },
     "C12": {
-        "bridge": [],
+        "bridge": [] + DECISIONS,
         "extra_modules": ["Convergen.Props.C15"],
         "sweeps": [sweep_history],
         "rule": "for accepted base cases: the previous output, every truncation of it (quick: the first 130 offsets + 30 random; "
@@ -414,7 +414,7 @@ PROPS = {
                         "marker strings do not occur in user text"],
     },
     "C15": {
-        "bridge": ["Convergen.Bridge.Tables"],
+        "bridge": ["Convergen.Bridge.Tables"] + DECISIONS,
         "sweeps": [sweep_runner],
         "rule": RUNNER_RULE % "accepted and rejected inputs x the 16 combinations of -dry/-print/-log/-out x path spellings (relative, "
                 "./relative, absolute, package directory, GOFILE) x output-path states (absent, stale file, missing directory, "
@@ -424,7 +424,7 @@ PROPS = {
         "assumptions": ["os.WriteFile either writes the output path or leaves it (a partially failing write is OS-defined)"],
     },
     "C18": {
-        "bridge": ["Convergen.Bridge.Tables"],
+        "bridge": ["Convergen.Bridge.Tables"] + DECISIONS,
         "extra_modules": ["Convergen.Props.C15"],
         "sweeps": [sweep_runner],
         "rule": RUNNER_RULE % "accepted inputs x the 16 flag combinations x path spellings (relative, ./relative, absolute, package "
